@@ -22,11 +22,12 @@ INT_EDGES = [
 
 RESULT_CODES = [0, 1, 2, 3, 4, 5, 6, 7, 8, 10, 11, 12, 13, 14, 16, 17, 18, 19, 20, 21, 32, 33, 34, 36,
                 48, 49, 50, 51, 52, 53, 54, 64, 65, 66, 67, 68, 69, 71, 80]
-UNKNOWN_CODES = [9, 15, 22, 81, 255, 256, 4096, 2**31 - 1, -1, 118, 123]
+UNKNOWN_CODES = [9, 15, 22, 81, 255, 256, 4096, 2**31 - 1, -1, 118, 123, 128, 200, 32768, 65535, 2**31, 2**32 + 5, 2**40, -(2**31) - 1, 2**63]
 
 TEXT_ALPHABET = (
     "abcdefghijklmnopqrstuvwxyzABCXYZ0123456789 ,=+<>#;\\\"'()*/-_.:@"
     "\x00\x01\x1f\x7f\u0080éÿĀΩ中文�￿\U0001f600\U0010ffff́​"
+    "ﬁ²Ａ\u00a0Ⅳá"
 )
 
 
